@@ -18,7 +18,8 @@ theorem tie_maxCPU : (maxCPU : Int) = C19.maxAvailableCPUCount := by decide
 12 GetGroupQuotaManagerForTree, 13 OnPodAdd, 14 OnPodUpdate, 15 OnPodDelete, 16 GetQuotaName, 17 Enabled,
 18 ElasticQuotas, 19 Get, 20 ByIndex, 21 MigratePod, 22 GetQuotaInfoByName, 23 GetPodCache, 24 GetTreeID,
 25 ReservePod, 26 UnreservePod, 27 deleteQuotaToTreeMap, 28 DeleteQuota, 29 updateQuotaToTreeMap, 30 UpdateQuota,
-31 NewGroupQuotaManager, 32 UpdateQuotaInfo, 33 ResetQuota, 34 addPodIfNotPresent, 35 removePodIfPresent) -/
+31 NewGroupQuotaManager, 32 UpdateQuotaInfo, 33 ResetQuota, 34 addPodIfNotPresent, 35 removePodIfPresent,
+36 refreshPodIfPresent, 37 getCachedPod) -/
 
 /-- `mgrMigrate`: read the flag of `out`, give back request (+ used), drop from `out`, RETURN if `in` holds the pod,
     else cache in `in`, set the flag BEFORE adding request and used (used is only added for an assigned pod). -/
@@ -27,10 +28,12 @@ theorem tie_q_migratePod : C19.qMigratePod = [10, 5, 9, 4, 2, 3, 4, 8, 5, 9] := 
 /-- `mgrPodAdd`: ignored?, QuotaInfo / already cached?, cache, request, fail-over: terminated?, assigned?, flag, used. -/
 theorem tie_q_onPodAdd : C19.qOnPodAdd = [1, 2, 3, 4, 5, 6, 7, 8, 9] := by decide
 
+/-- `mgrPodUpdate`: the same-quota branch ends with refreshPodIfPresent (36, fix 7265fb2) -/
 theorem tie_q_onPodUpdate : C19.qOnPodUpdate =
-    [2, 1, 3, 5, 4, 5, 10, 9, 6, 8, 9, 3, 5, 7, 9, 4, 2, 3, 10, 9, 5, 4, 2, 3, 1, 4, 5, 6, 7, 8, 9] := by decide
+    [2, 1, 3, 5, 4, 5, 10, 9, 6, 8, 9, 36, 3, 5, 7, 9, 4, 2, 3, 10, 9, 5, 4, 2, 3, 1, 4, 5, 6, 7, 8, 9] := by decide
 
-theorem tie_q_onPodDelete : C19.qOnPodDelete = [2, 3, 5, 7, 9, 4] := by decide
+/-- `mgrPodDelete`: after the guard the CACHED object (getCachedPod, 37) is what is given back -/
+theorem tie_q_onPodDelete : C19.qOnPodDelete = [2, 3, 37, 5, 7, 9, 4] := by decide
 theorem tie_q_reservePod : C19.qReservePod = [2, 3, 7, 8, 9] := by decide
 theorem tie_q_unreservePod : C19.qUnreservePod = [2, 3, 7, 9, 8] := by decide
 theorem tie_q_updatePodCache : C19.qUpdatePodCache = [2, 34, 35] := by decide
